@@ -10,6 +10,7 @@
   (environment assumption `now < 2^48`).
 -/
 import QV.Proofs.ServerWriter
+import QV.Proofs.WriterV0
 import QV.Properties.C15
 
 namespace QV.ServerSafety
@@ -176,7 +177,7 @@ theorem setLimit_edns (v : Nat) (s : State) : (setLimit v s).2.edns = s.edns := 
 theorem setExtendedRcode_not_err (v : Nat) (hv : v ≤ 4095) (s : State) (he : s.edns.isSome) :
     ∀ e, (setExtendedRcode v s).1 ≠ .err e := by
   intro e
-  unfold setExtendedRcode
+  rw [setExtendedRcode_v0]; unfold V0.setExtendedRcode
   cases hs : s.edns with
   | none => rw [hs] at he; cases he
   | some ed =>
